@@ -39,6 +39,7 @@ type burstReq struct {
 	supi         string
 	sessRef      string
 	lsn          int32
+	evID         int32 // charging id of a one-time event
 	usedOnline   int64
 	code         int
 	loc          string
@@ -134,6 +135,18 @@ func mkCreateBodyNamed(supi string, chargingID int32, name string) []byte {
 		NfConsumerIdentification: &models.ChfConvergedChargingNfIdentification{NFName: name, NodeFunctionality: "SMF"},
 		InvocationTimeStamp:      &now, InvocationSequenceNumber: 1, NotifyUri: uri,
 		MultipleUnitUsage: []models.ChfConvergedChargingMultipleUnitUsage{{RatingGroup: 1, RequestedUnit: &models.RequestedUnit{TotalVolume: 10}}}}
+	b, _ := json.Marshal(r)
+	return b
+}
+
+// mkEventBody is a one-time-event create (immediate event charging) reporting one container.
+func mkEventBody(supi string, chargingID int32, lsn int32) []byte {
+	now := time.Now()
+	r := models.ChfConvergedChargingChargingDataRequest{SubscriberIdentifier: supi, ChargingId: chargingID,
+		NfConsumerIdentification: &models.ChfConvergedChargingNfIdentification{NFName: "smf", NodeFunctionality: "SMF"},
+		InvocationTimeStamp:      &now, InvocationSequenceNumber: 1, NotifyUri: notifyURIOf(supi), OneTimeEvent: true, OneTimeEventType: models.OneTimeEventType_IEC,
+		MultipleUnitUsage: []models.ChfConvergedChargingMultipleUnitUsage{{RatingGroup: 2, RequestedUnit: &models.RequestedUnit{TotalVolume: 1},
+			UsedUnitContainer: []models.ChfConvergedChargingUsedUnitContainer{{QuotaManagementIndicator: models.QuotaManagementIndicator_OFFLINE_CHARGING, TotalVolume: 1, UplinkVolume: 1, LocalSequenceNumber: lsn}}}}}
 	b, _ := json.Marshal(r)
 	return b
 }
@@ -258,6 +271,10 @@ func oneBurst(c C09Case, rep int) (sig, msg string, nt bool) {
 			}
 			if c.Kind == "mixed" || c.Kind == "same-sub" {
 				switch i % 5 {
+				case 2:
+					if i%10 == 2 {
+						k = "event" // a one-time event of the same subscriber in flight beside its session requests
+					}
 				case 3:
 					k = "recharge"
 				case 4:
@@ -280,6 +297,9 @@ func oneBurst(c C09Case, rep int) (sig, msg string, nt bool) {
 			case "create":
 				chargingIDSeq++
 				reqs = append(reqs, &burstReq{method: "POST", path: prefix + "/chargingdata", body: mkCreateBody(s.supi, chargingIDSeq), kind: "create", supi: s.supi, lsn: chargingIDSeq})
+			case "event":
+				chargingIDSeq++
+				reqs = append(reqs, &burstReq{method: "POST", path: prefix + "/chargingdata", body: mkEventBody(s.supi, chargingIDSeq, lsn), kind: "event", supi: s.supi, lsn: lsn, evID: chargingIDSeq})
 			}
 		}
 	}
@@ -355,6 +375,14 @@ func oneBurst(c C09Case, rep int) (sig, msg string, nt bool) {
 		case "recharge":
 			if r.code != 204 {
 				return "valid-request-rejected/recharge", fmt.Sprintf("concurrent recharge answered %d", r.code), nt
+			}
+		case "event":
+			if r.code != 201 {
+				return "valid-request-rejected/event", fmt.Sprintf("concurrent one-time event answered %d", r.code), nt
+			}
+			// its record, with its container, is among the subscriber's records exactly once
+			if got := lsnsOfSession(r.supi, r.evID); got[int64(r.lsn)] != 1 {
+				return "event-record-count/" + c.Kind, fmt.Sprintf("the container (lsn %d) of an acknowledged one-time event is recorded %d times in the subscriber's records, want once", r.lsn, got[int64(r.lsn)]), nt
 			}
 		}
 	}
